@@ -90,3 +90,26 @@ V('C13', 'packed-rvar-map-shared-default', 'edb/pgsql/ast.py', None,
 ''', 'C13.R8', 'tree-nodes:no-shared-mutable-default')
 V('C13', 'neg-copy-option-default-never-mutated', 'edb/pgsql/ast.py', None,
   '    encoding: typing.Optional[str] = None\n', '    encoding: typing.Optional[str] = None\n    extra_names: typing.List[str] = []\n', None)
+
+# round 4
+V('C13', 'revert-fix-path-bonds-plain-set', 'edb/pgsql/ast.py', None,
+  '''    path_bonds: ordered.OrderedSet[tuple[irast.PathId, bool]] = ast.field(
+        factory=ordered.OrderedSet)''',
+  '''    path_bonds: typing.Set[tuple[irast.PathId, bool]] = ast.field(factory=set)''',
+  'C13.R2', 'path_bonds')
+V('C13', 'unqualified-join-as-second-from-item', 'edb/pgsql/compiler/relctx.py',
+  'edb.pgsql.compiler.relctx._plain_join',
+  '''    else:
+        larg = query.from_clause[0]
+        rarg = right_rvar
+''', '''    elif condition is None:
+        query.from_clause.append(right_rvar)
+    else:
+        larg = query.from_clause[0]
+        rarg = right_rvar
+''', 'C13.R9', 'single-join-tree')
+V('C13', 'newrel-inherits-path-scope', 'edb/pgsql/compiler/context.py',
+  'edb.pgsql.compiler.context.CompilerContextLevel.__init__',
+  '                self.path_scope = collections.ChainMap()\n                self.rel_hierarchy = {}\n                self.scope_tree = prevlevel.scope_tree.root',
+  '                self.path_scope = prevlevel.path_scope.new_child()\n                self.rel_hierarchy = {}\n                self.scope_tree = prevlevel.scope_tree.root',
+  'C13.R9', 'newrel-empty-path-scope')
